@@ -3,6 +3,7 @@ package server
 import (
 	"context"
 	"errors"
+	"sync"
 
 	"github.com/feichai0017/NoKV/manifest"
 	"github.com/feichai0017/NoKV/pb"
@@ -21,6 +22,10 @@ type Service struct {
 	ids     *core.IDAllocator
 	tso     *tso.Allocator
 	storage pdstorage.Store
+
+	// allocMu orders allocator checkpoints: the counters are loaded and
+	// persisted under it, so a checkpoint never goes backwards.
+	allocMu sync.Mutex
 }
 
 // NewService constructs a PD-lite service.
@@ -188,6 +193,11 @@ func (s *Service) persistAllocatorState() error {
 	if s == nil || s.storage == nil {
 		return nil
 	}
+	// Load the counters and write them under one lock. Loading them outside
+	// lets a request holding an older snapshot overwrite a newer checkpoint,
+	// and a restart would then hand out the same timestamps/IDs again.
+	s.allocMu.Lock()
+	defer s.allocMu.Unlock()
 	return s.storage.SaveAllocatorState(s.ids.Current(), s.tso.Current())
 }
 
